@@ -139,6 +139,18 @@ var c10Inits = []func() *input.Point{
 	func() *input.Point {
 		return input.InitPt(&input.Point{}, "m", nil, map[string]any{"f": uint(1 << 63), "message": int32(-1 << 31), "n1": uint16(65535), "n2": uint32(1<<32 - 1), "t": int64(-1 << 63)}, time.Unix(1700000000, 0))
 	},
+	// a wide point: 40 keys, most of which no operation ever touches
+	func() *input.Point {
+		tags := map[string]string{"t": "tv"}
+		fields := map[string]any{"f": int64(7), "message": "abc 12"}
+		for k := 0; k < 5; k++ {
+			tags[fmt.Sprintf("wt%02d", k)] = fmt.Sprint("v", k)
+		}
+		for k := 0; k < 32; k++ {
+			fields[fmt.Sprintf("w%02d", k)] = []any{int64(k), float64(k) / 2, k%2 == 0, fmt.Sprint("s", k)}[k%4]
+		}
+		return input.InitPt(&input.Point{}, "m", tags, fields, time.Unix(1700000000, 0))
+	},
 }
 
 func clonePoint(p *input.Point) *input.Point {
@@ -453,6 +465,9 @@ func (k c10) Run(c *mon.Ctx, workload string, i int64) {
 	}
 	seen := map[string]bool{}
 	depth := c10Depth(c.Tier)
+	if int(i)/len(c10OpList) == len(c10Inits)-1 {
+		depth-- // the wide point: its states are ten times as large
+	}
 	frontier := []node{}
 	pt := clonePoint(init)
 	h0 := []string{strings.ReplaceAll(first.Text, "\n", "; ")}
